@@ -112,3 +112,7 @@ DET.update({
  "C11-f": (True,  "C11 quick: dev=iat_near/exp_near ... got=server=fail (the independent AKEP2 reference peer's proofs, which include the nonces, are refused)", ""),
  "C13-f": (True,  "C13 quick: ep=ParseSinful kind=spin class='qm amp' (empty query pair)", ""),
 })
+DET.update({
+ "C03-f": (False, "C03 quick: invariant=RequiredEncOn policySource=hook policy=*/integREQUIRED deviation=OmitECDH|TruncateECDH|RandomECDH|NoCommonCipher role=server", "HandshakeEvil.tla: policy source of the server (base config / ServerConfigForCommand hook over a weak base), integrity-only REQUIRED cells in the quick tier for fresh server handshakes; Bug PerCommandIntegrityDropped"),
+ "C08-f": (False, "C08 quick: spec=ItemSplit reader=parse spacing=leadingBlank|blanksBeforeEq what='attribute set' / spacing=tight eqInValue=true what=error", "ItemSplit.tla (the parsing receiver's Name = Value splitter over token texts: six spacing classes, '=' inside the value; invariant SplitAtFirstEq; Bugs CutAtSpacedEq, CutAtLastEq); 1 502 pre-rendered items sent through the raw senders and read by all receivers"),
+})
